@@ -241,6 +241,16 @@ class World:
         self.obj = {}
         self.BaseGeo, self.Magic, self.Collection, self.BaseSource, self.Sensor = _base_classes()
         self.extra_pub = {}   # name -> [style leaf paths] logged individually (override targets)
+        self.args = {}        # name -> {keyword: value}: caller-owned argument nodes (kind "A")
+
+    def style_leaves(self, n):
+        """every leaf of the effective style of object n (label excluded), digested"""
+        try:
+            flat = effective_style(self.obj[n]).as_dict(flatten=True, separator=".")
+        except Exception as ex:  # pylint: disable=broad-except
+            return {"<raise>": type(ex).__name__}
+        flat.pop("label", None)
+        return {k: dg(canon(v)) for k, v in flat.items()}
 
     def name(self, o):
         if o is None:
@@ -293,6 +303,21 @@ class World:
             pub["__dict__"] = canon(sorted(priv))
             if detail:
                 det[n] = {"pub": dict(pub), "leaves": sorted(c.leaves)}
+            ob["pub"][n] = {k: dg(v) for k, v in pub.items()}
+        # caller-owned argument nodes: the containers given to copy() as keyword values are cells of the caller
+        for n, kw in self.args.items():
+            ob["kind"][n] = "A"
+            ob["cls"][n] = "Args"
+            ob["parent"][n] = NONE
+            c = Cells()
+            seen = set()
+            for k, v in kw.items():
+                c.walk(v, k, self.BaseGeo, seen)
+            ob["refs"][n] = [ids.get(x) for p, x in c.items] if compact else {p: ids.get(x) for p, x in c.items}
+            ob["sty"][n] = "none"
+            ob["lab"][n] = label_parts(None)
+            pub = {k: canon(v) for k, v in kw.items()}
+            pub["__dict__"] = canon(sorted(c.leaves))
             ob["pub"][n] = {k: dg(v) for k, v in pub.items()}
         if detail:
             return ob, det
@@ -388,8 +413,34 @@ def _field_with_resource(field, observers, solver=None):
     return tagged_field(field, observers)
 
 
+UNSET = ["Cuboid?", "Cylinder?", "CylinderSegment?", "Sphere?", "Tetrahedron?", "TriangularMesh?", "Circle?", "Polyline?", "Dipole?",
+         "Triangle?", "CustomSource?", "Sensor?"]
+
+# attributes for which None is a documented value ("not set"; orientation=None: unit orientation)
+NONE_ATTRS = {
+    "Cuboid": ["dimension", "polarization", "magnetization"], "Cylinder": ["dimension", "polarization", "magnetization"],
+    "CylinderSegment": ["dimension", "polarization", "magnetization"], "Sphere": ["diameter", "polarization", "magnetization"],
+    "Tetrahedron": ["vertices", "polarization", "magnetization"], "TriangularMesh": ["polarization", "magnetization"],
+    "Circle": ["diameter", "current"], "Polyline": ["vertices", "current"], "Dipole": ["moment"],
+    "Triangle": ["vertices", "polarization", "magnetization"], "CustomSource": ["field_func"], "Sensor": ["pixel"], "Collection": [],
+}
+
+
 def make(cls, mode, label, pose=0):
-    """one object of class `cls` with a two-step lattice path; style per `mode`"""
+    """one object of class `cls` with a two-step lattice path; style per `mode`; `Class?` = geometry and excitation not set"""
+    if cls.endswith("?"):
+        base = cls[:-1]
+        kw = {"position": [(1, 2, 3), (2, 2, 3)], "orientation": mat_to_rot([np.eye(3), RZ90])}
+        if base == "TriangularMesh":
+            kw.update(vertices=TETRA, faces=TETRA_F)
+        if mode == "pending":
+            kw.update(style_ctor_kwargs(label))
+        o = ctor(base)(**kw)
+        if mode == "init":
+            o.style.update(STYLE_INIT)
+            if label is not None:
+                o.style.label = label
+        return o
     if cls == "CustomSource!":
         import functools
         o = make("CustomSource", mode, label, pose)
@@ -416,7 +467,7 @@ def make(cls, mode, label, pose=0):
 def build_subject(w, subject, mode, label):
     """creates the subject (an object or a tree) in world `w`; names o0.. in DFS preorder; returns root name"""
     m = magpy()
-    if subject in CLASSES or subject == "CustomSource!":
+    if subject in CLASSES or subject == "CustomSource!" or subject in UNSET:
         w.obj["o0"] = make(subject, mode, label)
         return "o0"
     if subject == "C[a!]":
@@ -477,43 +528,74 @@ def with_parent(w, root):
 
 
 # ------------------------------------------------------------------------------------------ copy keywords
+def _attr_val(k, v):
+    if v is None:
+        return canon(None)
+    if k in ("field_func", "handedness"):
+        return canon(v)
+    if k in ("diameter", "current"):
+        return canon(float(v))
+    return canon_num(v)
+
+
 def copy_keywords(cls, tier):
-    """list of (tag, kwargs, entries) where entries describe what each keyword is expected to set:
-       {"kw", "family": path|attr|style|label, "attr": public attribute that must show it, "val": canonical text}"""
-    out = [("none", {}, [])]
-    p1 = (4, 5, 6)
-    p2 = [(4, 5, 6), (5, 5, 6), (6, 5, 6)]
-    out.append(("position", {"position": p1}, [{"kw": "position", "family": "path", "attr": "position", "val": canon_num(p1)}]))
-    out.append(("position_path", {"position": p2}, [{"kw": "position", "family": "path", "attr": "position", "val": canon_num(p2)}]))
+    """list of (tag, kwargs, entries, reuse) where entries describe what each keyword is expected to set:
+       {"kw", "family": path|attr|style|label, "attr": public attribute that must show it, "val": canonical text,
+        "leaf": style leaf addressed ("" otherwise), "isnone": the value given is None}
+       reuse: keywords whose (container) values the caller hands to a SECOND copy() afterwards.
+       Numeric values are given in mutable containers of the caller (arrays, lists) wherever the API takes array_like."""
+    def E(kw, family, attr, val, isnone=False, call=0):
+        # call: 0 = holds for every copy() made with this keyword, 1 = only for the first call (all keywords), 2 = only for
+        # the second call (the reused container keywords alone)
+        return {"kw": kw, "family": family, "attr": attr, "val": val, "leaf": attr[6:] if family == "style" else "", "isnone": isnone, "call": call}
+
+    out = [("none", {}, [], [])]
+    p1 = np.array([4.0, 5.0, 6.0])
+    p2 = [[4, 5, 6], [5, 5, 6], [6, 5, 6]]
+    out.append(("position", {"position": p1}, [E("position", "path", "position", canon_num(p1))], ["position"]))
+    out.append(("position_path", {"position": p2}, [E("position", "path", "position", canon_num(p2))], []))
     r1 = mat_to_rot(RX90)
-    out.append(("orientation", {"orientation": r1}, [{"kw": "orientation", "family": "path", "attr": "orientation", "val": canon(r1)}]))
+    out.append(("orientation", {"orientation": r1}, [E("orientation", "path", "orientation", canon(r1))], []))
+    out.append(("orientation=None", {"orientation": None}, [E("orientation", "path", "orientation", canon(R.identity()), True)], []))
     for k, v in attr_values(cls):
-        val = canon(v) if k in ("field_func", "handedness") else canon_num(v)
-        if k in ("diameter", "current"):
-            val = canon(float(v))
-        out.append((k, {k: v}, [{"kw": k, "family": "attr", "attr": k, "val": val}]))
-    out.append(("style_label", {"style_label": "renamed"}, [{"kw": "style_label", "family": "label", "attr": "label", "val": "renamed"}]))
-    out.append(("style_color", {"style_color": "blue"}, [{"kw": "style_color", "family": "style", "attr": "style.color", "val": canon("blue")}]))
+        vv = [list(x) for x in v] if k in ("vertices", "pixel") else list(v) if isinstance(v, tuple) else v
+        out.append((k, {k: vv}, [E(k, "attr", k, _attr_val(k, v))], []))
+    for k in NONE_ATTRS[cls]:
+        out.append((f"{k}=None", {k: None}, [E(k, "attr", k, canon(None), True)], []))
+    out.append(("style_label", {"style_label": "renamed"}, [E("style_label", "label", "label", "renamed")], []))
+    out.append(("style_label=None", {"style_label": None}, [E("style_label", "label", "label", "", True)], []))
+    out.append(("style=None", {"style": None}, [], []))
+    out.append(("style_color", {"style_color": "blue"}, [E("style_color", "style", "style.color", canon("blue"))], []))
     out.append(("style_dict", {"style": {"opacity": 0.25, "path": {"numbering": True}}},
-                [{"kw": "style", "family": "style", "attr": "style.opacity", "val": canon(0.25)},
-                 {"kw": "style", "family": "style", "attr": "style.path.numbering", "val": canon(True)}]))
+                [E("style", "style", "style.opacity", canon(0.25)), E("style", "style", "style.path.numbering", canon(True))], ["style"]))
     out.append(("style_dict_plus", {"style": {"opacity": 0.25}, "style_color": "blue"},
-                [{"kw": "style", "family": "style", "attr": "style.opacity", "val": canon(0.25)},
-                 {"kw": "style_color", "family": "style", "attr": "style.color", "val": canon("blue")}]))
-    out.append(("style_nested", {"style_path_line_width": 3},
-                [{"kw": "style_path_line_width", "family": "style", "attr": "style.path.line.width", "val": canon(3)}]))
-    combo = {"position": p1, "style_label": "both", "style_opacity": 0.75}
-    ent = [{"kw": "position", "family": "path", "attr": "position", "val": canon_num(p1)},
-           {"kw": "style_label", "family": "label", "attr": "label", "val": "both"},
-           {"kw": "style_opacity", "family": "style", "attr": "style.opacity", "val": canon(0.75)}]
+                [E("style", "style", "style.opacity", canon(0.25)), E("style_color", "style", "style.color", canon("blue"))], ["style"]))
+    # a (nested) style dictionary TOGETHER with underscore keywords that fall into a branch the dictionary already holds
+    out.append(("style_branch", {"style": {"path": {"show": False}, "color": "red"}, "style_path_line_width": 7},
+                [E("style", "style", "style.path.show", canon(False)), E("style", "style", "style.color", canon("red")),
+                 E("style_path_line_width", "style", "style.path.line.width", canon(7))], ["style"]))
+    out.append(("style_branch_deep", {"style": {"path": {"line": {"style": "dashed"}, "marker": {"symbol": "x"}}},
+                                      "style_path_line_width": 3, "style_path_marker_size": 5},
+                [E("style", "style", "style.path.line.style", canon("dashed")), E("style", "style", "style.path.marker.symbol", canon("x")),
+                 E("style_path_line_width", "style", "style.path.line.width", canon(3)),
+                 E("style_path_marker_size", "style", "style.path.marker.size", canon(5))], ["style"]))
+    out.append(("style_nested", {"style_path_line_width": 3}, [E("style_path_line_width", "style", "style.path.line.width", canon(3))], []))
+    combo = {"position": [4, 5, 6], "style_label": "both", "style_opacity": 0.75, "style": {"path": {"frames": [0]}, "opacity": 0.5}}
+    ent = [E("position", "path", "position", canon_num(p1)), E("style_label", "label", "label", "both"),
+           E("style_opacity", "style", "style.opacity", canon(0.75), call=1), E("style", "style", "style.opacity", canon(0.5), call=2),
+           E("style", "style", "style.path.frames", canon((0,)))]
     av = attr_values(cls)
     if av:
         k, v = av[0]
-        combo[k] = v
-        val = canon(v) if k in ("field_func", "handedness") else canon(float(v)) if k in ("diameter", "current") else canon_num(v)
-        ent.append({"kw": k, "family": "attr", "attr": k, "val": val})
-    out.append(("combo", combo, ent))
+        combo[k] = [list(x) for x in v] if k in ("vertices", "pixel") else list(v) if isinstance(v, tuple) else v
+        ent.append(E(k, "attr", k, _attr_val(k, v)))
+    out.append(("combo", combo, ent, ["style", "position"]))
     return out
+
+
+def entries_for(entries, keys, call):
+    """the entries a copy() made with the keywords `keys` is expected to show (call 1: all keywords; call 2: the reused ones)"""
+    return [e for e in entries if e["kw"] in keys and e["call"] in (0, call)]
 
 
 # ------------------------------------------------------------------------------------------ field observation
@@ -588,7 +670,7 @@ def mutation_vocabulary(w, target, side_tag, tier):
     # style
     ops.append(("style:color", lambda: setattr(o.style, "color", "green"), True))
     ops.append(("style:label", lambda: setattr(o.style, "label", f"relabel_{side_tag}"), True))
-    ops.append(("style:nested", lambda: setattr(o.style.path.line, "width", 7), True))
+    ops.append(("style:nested", lambda: setattr(o.style.path.line, "width", 11), True))
     ops.append(("style:update", lambda: o.style.update(opacity=0.125, path_marker_size=9), True))
     ops.append(("style:assign", lambda: setattr(o, "style", {"description": {"text": "txt"}}), True))
     ops.append(("style:add_trace", lambda: o.style.model3d.add_trace(
@@ -603,7 +685,7 @@ def mutation_vocabulary(w, target, side_tag, tier):
         d[0].kwargs["x"][0] += 5.0
         d[0].kwargs["new"] = 1
     ops.append(("style:trace_inplace", trace_inplace, True))
-    ops.append(("style:frames_list", lambda: setattr(o.style.path, "frames", [0]), True))
+    ops.append(("style:frames_list", lambda: setattr(o.style.path, "frames", [1, 0]), True))
 
     if isinstance(o, w.Collection):
         def add_new():
@@ -653,36 +735,44 @@ def sides(w):
     return orig, cop
 
 
-def run_scenario(sc, tid0, tier, detail=False):
-    """sc = {subject, parent, mode, label, kwtag, mutate}; returns the event (one JSON line) and the number of steps"""
-    w = World()
-    root = build_subject(w, sc["subject"], sc["mode"], sc["label"])
-    if sc["parent"]:
-        with_parent(w, root)
-    cls = type(w.obj[root]).__name__
-    tag, kwargs, entries = [k for k in copy_keywords(cls, tier) if k[0] == sc["kwtag"]][0]
+def _field_record(f0, fo, fc, outcome):
+    fld = {"have": False, "q0": [], "qo": [], "qc": [], "fin": True}
+    mismatch = False
+    if isinstance(fo, np.ndarray) and isinstance(fc, np.ndarray) and isinstance(f0, np.ndarray) and fo.shape == fc.shape == f0.shape:
+        s = quant.gross(fo, fc, f0)
+        fld = {"have": True, "q0": quant.q8(f0, s), "qo": quant.q8(fo, s), "qc": quant.q8(fc, s),
+               "fin": bool(np.isfinite(fo).all() and np.isfinite(fc).all() and np.isfinite(f0).all())}
+    elif isinstance(fo, str) or isinstance(fc, str):
+        # the field cannot be computed (geometry/excitation not set): the two sides must fail alike
+        mismatch = (fo != fc) if (isinstance(fo, str) and isinstance(fc, str)) else False
+    elif (fo is None) != (fc is None):
+        mismatch = True
+    return fld, bool(mismatch and outcome == "ok")
+
+
+def do_copy(w, root, kwargs, entries, prefix, sc_log, tid):
+    """one copy() call on w.obj[root]; the objects of the copy get names <prefix>0.. ; returns the copy record (for CopyVerdict)"""
     sub = [n for n in w.obj if n.startswith("o")]
-    for n in ("o0", "c0"):
-        w.extra_pub[n] = [e["attr"][6:] for e in entries if e["family"] == "style"]
+    f0 = field_of(w, sub)     # before the observation: a failing field call formats the object and thereby creates its style
     pre = w.observe()
-    f_orig0 = field_of(w, sub)
-    caller_kwargs = _copy.deepcopy(kwargs)
+    leaves_pre = w.style_leaves(root)
+    snapshot = canon(kwargs)
     entries = [dict(e, text=e["val"], val=(e["val"] if e["family"] == "label" else dg(e["val"]))) for e in entries]
-    ev = {"tid": tid0, "sc": dict(sc, label="<None>" if sc["label"] is None else sc["label"], uncopyable="!" in sc["subject"]), "root": root, "cls": cls, "pre": pre, "entries": entries}
+    rec = {"tid": tid, "sc": sc_log, "root": root, "cls": type(w.obj[root]).__name__, "pre": pre, "entries": entries}
     try:
         c = w.obj[root].copy(**kwargs)
         outcome = "ok"
     except Exception as ex:  # pylint: disable=broad-except
         c = None
         outcome = "exc:" + type(ex).__name__
-    ev["outcome"] = outcome
-    ev["kwargs_intact"] = canon(kwargs) == canon(caller_kwargs)
+    rec["outcome"] = outcome
+    rec["kwargs_intact"] = canon(kwargs) == snapshot
     ren = {}
     if c is not None:
         # name the objects of the copy by walking both trees in parallel (by position in the children lists)
         def walk(o, cc):
             on = w.name(o)
-            cn = "c" + on[1:]
+            cn = prefix + on[1:]
             w.obj[cn] = cc
             ren[on] = cn
             if isinstance(o, w.Collection) and isinstance(cc, w.Collection):
@@ -690,24 +780,65 @@ def run_scenario(sc, tid0, tier, detail=False):
                     if i < len(cc._children) and w.name(cc._children[i]) == "ghost":
                         walk(ch, cc._children[i])
         walk(w.obj[root], c)
-    ev["ren"] = ren
-    ev["same_object"] = c is w.obj[root]
-    post = w.observe()
-    ev["post"] = post
-    # field law: same field, when no keyword changes pose/geometry/excitation
+        w.extra_pub[ren[root]] = w.extra_pub.get(root, [])
+    rec["ren"] = ren
+    rec["same_object"] = c is w.obj[root]
+    rec["post"] = w.observe()
+    rec["leaves"] = {"pre": leaves_pre, "post": w.style_leaves(ren[root]) if ren else leaves_pre, "orig_post": w.style_leaves(root)}
     fo, fc = field_of(w, sub), (field_of(w, [ren[n] for n in sub if n in ren]) if ren else None)
-    fld = {"have": False, "q0": [], "qo": [], "qc": [], "fin": True}
-    if isinstance(fo, np.ndarray) and isinstance(fc, np.ndarray) and isinstance(f_orig0, np.ndarray) and fo.shape == fc.shape == f_orig0.shape:
-        s = quant.gross(fo, fc, f_orig0)
-        fld = {"have": True, "q0": quant.q8(f_orig0, s), "qo": quant.q8(fo, s), "qc": quant.q8(fc, s),
-               "fin": bool(np.isfinite(fo).all() and np.isfinite(fc).all() and np.isfinite(f_orig0).all())}
-    elif isinstance(fo, str) or isinstance(fc, str) or (fo is None) != (fc is None):
-        fld = {"have": False, "q0": [], "qo": [], "qc": [], "fin": True, "mismatch": [str(type(fo)), str(type(fc))]}
-    ev["field"] = fld
-    ev["field_mismatch"] = "mismatch" in fld and outcome == "ok"
-    fld.pop("mismatch", None)
+    rec["field"], rec["field_mismatch"] = _field_record(f0, fo, fc, outcome)
+    return rec, c
+
+
+def mutate_args(kw):
+    """the caller changes, in place, every container it handed to copy(); returns the number of containers changed"""
+    n = 0
+
+    def rec(v):
+        nonlocal n
+        if isinstance(v, np.ndarray) and v.size and v.dtype.kind == "f":
+            v += 1.0
+            n += 1
+        elif isinstance(v, dict):
+            for x in list(v.values()):
+                rec(x)
+            v["opacity"] = 0.03125
+            n += 1
+        elif isinstance(v, list):
+            for x in v:
+                rec(x)
+            if v and isinstance(v[0], (int, float)):
+                v[0] = v[0] + 1
+                n += 1
+    for v in kw.values():
+        rec(v)
+    return n
+
+
+def run_scenario(sc, tid0, tier, detail=False):
+    """sc = {subject, parent, mode, label, kwtag, mutate}; returns the event (one JSON line) and the number of judged steps"""
+    w = World()
+    root = build_subject(w, sc["subject"], sc["mode"], sc["label"])
+    if sc["parent"]:
+        with_parent(w, root)
+    cls = type(w.obj[root]).__name__
+    tag, kwargs, entries, reuse = [k for k in copy_keywords(cls, tier) if k[0] == sc["kwtag"]][0]
+    w.extra_pub[root] = [e["leaf"] for e in entries if e["family"] == "style"]
+    if kwargs:
+        w.args["ARGS"] = kwargs          # the caller's keyword values: a node of the heap
+    sc_log = dict(sc, label="<None>" if sc["label"] is None else sc["label"], uncopyable="!" in sc["subject"])
+    ev, c = do_copy(w, root, kwargs, entries_for(entries, set(kwargs), 1), "c", sc_log, tid0)
+    ren = ev["ren"]
+    ev["has2"] = False
+    ev["copy2"] = {}
+    nj = 0
+    if reuse and c is not None:
+        # the caller makes a second copy with the SAME container objects (style template, array), nothing else
+        kw2 = {k: kwargs[k] for k in reuse}
+        rec2, _ = do_copy(w, root, kw2, entries_for(entries, set(reuse), 2), "d", sc_log, tid0 + 9000)
+        ev["has2"], ev["copy2"] = True, rec2
+        nj += 1
     steps = []
-    det = []
     if sc["mutate"] and c is not None:
         k = 0
         orig_targets = [n for n in w.obj if n.startswith("o")]
@@ -719,12 +850,19 @@ def run_scenario(sc, tid0, tier, detail=False):
             for (a, b) in zip(vo, vc):
                 plan.append((t_o, a))
                 plan.append((t_c, b))
+        if kwargs:
+            plan.append(("ARGS", ("args:inplace", lambda: mutate_args(kwargs), bool(mutate_args(_copy.deepcopy(kwargs))))))
         for target, (opname, fn, expect) in plan:
             o_side, c_side = sides(w)
+            d_side = [n for n in w.obj if n[0] == "d"]
             on_orig = target[0] == "o"
-            others = c_side if on_orig else o_side
-            if opname == "copy_again":
-                others = o_side + c_side
+            if target == "ARGS":
+                others, mine_all, side = o_side + c_side + d_side, ["ARGS"], "args"
+            else:
+                others = (c_side if on_orig else o_side) + d_side
+                if opname == "copy_again":
+                    others = o_side + c_side + d_side
+                mine_all, side = (o_side if on_orig else c_side), ("orig" if on_orig else "copy")
             others = [n for n in others if not n.startswith("n")]
             try:
                 fn()
@@ -733,11 +871,12 @@ def run_scenario(sc, tid0, tier, detail=False):
                 oc = "exc:" + type(ex).__name__
             k += 1
             obs = w.observe(compact=True)
-            mine = [n for n in (o_side if on_orig else c_side) if n in obs["kind"]]
-            steps.append({"tid": tid0 + k, "op": opname, "target": target, "side": "orig" if on_orig else "copy", "others": others,
+            mine = [n for n in mine_all if n in obs["kind"]]
+            steps.append({"tid": tid0 + k, "op": opname, "target": target, "side": side, "others": others,
+                          "args": ["ARGS"] if (kwargs and target != "ARGS") else [],
                           "mine": mine, "expect": bool(expect), "outcome": oc, "obs": obs})
     ev["steps"] = steps
-    return ev, len(steps)
+    return ev, len(steps) + nj
 
 
 def scenarios(tier):
@@ -752,10 +891,19 @@ def scenarios(tier):
                 for tag in tags:
                     label = None if mode == "none" else LABELS[li % len(LABELS)]
                     li += 1
-                    mutate = tag in ("none", "position") if tier == "quick" else tag in ("none", "position", "style_color", "combo")
+                    mutate = tag in ("none", "position") if tier == "quick" else tag in ("none", "position", "style_branch", "combo")
                     if tier == "quick" and subject in TREES and tag == "position" and mode != "pending":
                         mutate = False
                     out.append({"subject": subject, "parent": parent, "mode": mode, "label": label, "kwtag": tag, "mutate": mutate})
+    # originals whose geometry / excitation is NOT set (None): plain copy and every attribute keyword with a real value
+    for subject in UNSET:
+        cls = subject[:-1]
+        tags = ["none", "position"] + [k for k, _ in attr_values(cls)] + [f"{k}=None" for k in NONE_ATTRS[cls]][:1]
+        for mode, parent in (("none", False), ("init", True)):
+            for tag in tags:
+                label = None if mode == "none" else LABELS[li % len(LABELS)]
+                li += 1
+                out.append({"subject": subject, "parent": parent, "mode": mode, "label": label, "kwtag": tag, "mutate": False})
     return out
 
 
